@@ -244,7 +244,9 @@ def inline_new_helpers(prog, fi, depth=2):
                 if isinstance(st, ast.Return):
                     if i != len(sts) - 1:
                         return None
-                    if st.value is not None and target is not None:
+                    if target == "return":
+                        out.append(st)
+                    elif st.value is not None and target is not None:
                         out.append(ast.Assign(targets=[copy.deepcopy(target)], value=st.value))
                     elif st.value is not None and not isinstance(st.value, (ast.Name, ast.Constant)):
                         out.append(ast.Expr(value=st.value))
@@ -278,6 +280,8 @@ def inline_new_helpers(prog, fi, depth=2):
                 call = st.value
             elif isinstance(st, ast.Assign) and len(st.targets) == 1 and isinstance(st.value, ast.Call) and isinstance(st.targets[0], (ast.Name, ast.Attribute, ast.Tuple)):
                 call, target = st.value, st.targets[0]
+            elif isinstance(st, ast.Return) and isinstance(st.value, ast.Call):
+                call, target = st.value, "return"
             if call is not None and d > 0:
                 g, recv = resolve(call, owner)
                 if g is not None and g is not owner and prog.is_new_function(g):
